@@ -198,6 +198,16 @@ func wideCalls(r *rand.Rand) []encCall {
 		}
 	}
 	dup := r.IntN(n + 2) // n, n+1: no repetition
+	if r.IntN(3) == 0 { // at or next to the member where the name set changes its representation
+		sw, total := 65, 0
+		for i, nm := range names {
+			if total += len(nm); total > 1024 {
+				sw = min(sw, i)
+				break
+			}
+		}
+		dup = min(n-1, max(0, sw-1+r.IntN(3)))
+	}
 	at := n
 	if dup < n {
 		at = dup + 1 + r.IntN(n-dup)
